@@ -38,7 +38,7 @@ theorem Inv.pluginEvent {cs : Nat → Nat} {s s1 : Net} (h : Inv s) (x : Sess)
     · rw [filter_append_new s.arrivals s.waits _ x, ← h.fifo]
       · simp [Net.waits, hxd]
       · intro y hy; simp [Net.waits, hne y hy]
-    · simp [List.nodup_append, h.arr_nodup, hxa]
+    · simpa [List.nodup_append, h.arr_nodup] using hne
     · intro u; have := h.arr_iff u
       by_cases h1 : u = x <;> simp only [h1, ↓reduceIte, List.mem_append, List.mem_singleton] <;> grind
     · intro u; have := h.dep_arr u
@@ -85,7 +85,7 @@ theorem Inv.pluginEvent {cs : Nat → Nat} {s s1 : Net} (h : Inv s) (x : Sess)
     · rw [filter_append_new s.arrivals s.waits _ x, ← h.fifo]
       · simp [Net.waits]
       · intro y hy; simp [Net.waits, hne y hy]
-    · simp [List.nodup_append, h.arr_nodup, hxa]
+    · simpa [List.nodup_append, h.arr_nodup] using hne
     · intro u; have := h.arr_iff u
       by_cases h1 : u = x <;> simp only [h1, ↓reduceIte, List.mem_append, List.mem_singleton] <;> grind
     · intro u; have := h.dep_arr u
